@@ -15,6 +15,7 @@ import (
 	"path/filepath"
 	"regexp"
 	"runtime"
+	"runtime/debug"
 	"sort"
 	"strconv"
 	"strings"
@@ -96,6 +97,26 @@ func Start(prop, level string) *Run {
 			r.deadline = r.start.Add(time.Duration(n) * time.Second)
 		}
 	}
+	// soft memory limit: the checks create and drop real instances at a high rate (some allocate tens of MiB
+	// each) under GOGC=400; the limit makes the collector keep up instead of letting the heap grow into the
+	// machine's memory. 16 GiB for a top-level process, an equal share of 32 GiB for a shard.
+	limit := int64(16) << 30
+	if sh := os.Getenv("VERIF_SHARD"); sh != "" {
+		if i := strings.Index(sh, "/"); i > 0 {
+			if n, err := strconv.Atoi(sh[i+1:]); err == nil && n > 0 {
+				limit = (int64(32) << 30) / int64(n)
+				if limit < 1<<30 {
+					limit = 1 << 30
+				}
+			}
+		}
+	}
+	if g := os.Getenv("VERIF_MEMLIMIT_GB"); g != "" {
+		if n, err := strconv.Atoi(g); err == nil && n > 0 {
+			limit = int64(n) << 30
+		}
+	}
+	debug.SetMemoryLimit(limit)
 	return r
 }
 
